@@ -20,6 +20,7 @@ import (
 // ever generated on ANY fork, so that stale entries of abandoned forks show up as
 // "found on A, not found on B".
 type ProbeSet struct {
+	MinNumber uint64 // by-number questions cover [MinNumber, MaxNumber]
 	MaxNumber uint64
 	Hashes    map[felt.Felt]struct{} // block hashes
 	TxHashes  map[felt.Felt]struct{}
@@ -129,7 +130,7 @@ func Probe(bc *blockchain.Blockchain, ps *ProbeSet) Obs {
 	l1, err := bc.L1Head()
 	o["l1head"] = ans(l1, err)
 
-	for n := uint64(0); n <= ps.MaxNumber; n++ {
+	for n := ps.MinNumber; n <= ps.MaxNumber; n++ {
 		p := fmt.Sprintf("n%d/", n)
 		b, err := bc.BlockByNumber(n)
 		o[p+"block"] = ans(b, err)
@@ -213,7 +214,7 @@ func Probe(bc *blockchain.Blockchain, ps *ProbeSet) Obs {
 			probeState(o, "state/head/", sr, ps, true)
 			closer()
 		}
-		for n := uint64(0); n <= ps.MaxNumber; n++ {
+		for n := ps.MinNumber; n <= ps.MaxNumber; n++ {
 			if sr, closer, err := bc.StateAtBlockNumber(n); err != nil {
 				o[fmt.Sprintf("state/n%d", n)] = errClass(err)
 			} else {
@@ -339,4 +340,19 @@ func Diff(a, b Obs, max int) []string {
 		out = append(out[:max], fmt.Sprintf("... %d more", len(out)-max))
 	}
 	return out
+}
+
+// NaiveEventsDigest is what EventsDigest(bc, nil, nil) must return for a node whose
+// canonical chain is exactly `blocks`: a plain scan of all receipts in chain order.
+func NaiveEventsDigest(blocks []*Blk) string {
+	var all []string
+	for _, b := range blocks {
+		for ti, rc := range b.Block.Receipts {
+			for ei, ev := range rc.Events {
+				all = append(all, fmt.Sprintf("%d/%s/%s/%d/%d/%s", b.Block.Number, b.Block.Hash.String(), rc.TransactionHash.String(), ti, ei, digest(ev)))
+			}
+		}
+	}
+	s := sha256.Sum256([]byte(strings.Join(all, "\n")))
+	return fmt.Sprintf("%d events/%s", len(all), hex.EncodeToString(s[:8]))
 }
